@@ -194,3 +194,105 @@ Proof.
     rewrite <- !app_assoc. reflexivity.
 Qed.
 End Ord2.
+
+(** ** the same for every writer of a multi-writer call *)
+Section Ord3.
+Variable eps : nat.
+Hypothesis Heps : (1 <= eps)%nat.
+
+Definition mstep := fun (acc : fsT * list list_info * nat) (ops : list wop) =>
+  let '(fsx, usx, kx) := acc in let (fsy, u) := filler_session fsx [kx] eps ops in (fsy, usx ++ u, S kx).
+
+Lemma filler_base fs sub ops : base (fst (filler_session fs sub eps ops)) = (base fs + 100)%nat.
+Proof.
+  unfold filler_session. cbv zeta. set (st := run_ops eps ops). set (closes := f_closed st ++ exit_closes st).
+  assert (A : forall cl fsa, base (fold_left (fun fs0 c => add_shard fs0 (split_code (fst c) :: sub) (snd c) (f_heap st)) cl fsa) = base fsa).
+  { induction cl as [|c t IH]; intros fsa; cbn [fold_left]; [reflexivity|]. rewrite IH. reflexivity. }
+  assert (B : forall tl fsa acc, base (fst (fold_left (fun (a : fsT * list list_info) (c : nat) => let (fs2, li) := write_list (fst a) (load_or_create (fst a) (c :: sub)) in (fs2, snd a ++ [li])) tl (fsa, acc))) = base fsa).
+  { induction tl as [|c t IH]; intros fsa acc; cbn [fold_left fst snd]; [reflexivity|].
+    assert (E : base (fst (write_list fsa (load_or_create fsa (c :: sub)))) = base fsa) by reflexivity.
+    destruct (write_list fsa (load_or_create fsa (c :: sub))) as [fs2 li]. cbn [fst] in *. rewrite IH. exact E. }
+  specialize (B (touched closes []) (fold_left (fun fs0 c => add_shard fs0 (split_code (fst c) :: sub) (snd c) (f_heap st)) closes fs) []).
+  destruct (fold_left _ (touched closes []) (_, [])) as [fs3 ups]. cbn [fst base] in *. rewrite B, A. reflexivity.
+Qed.
+
+(** the state of the call after its first [j] writers *)
+Lemma multi_prefix : forall ws fsa us k, WFunder fsa [] -> FreshOK fsa ->
+  let r := fold_left mstep ws (fsa, us, k) in
+  WFunder (fst (fst r)) [] /\ FreshOK (fst (fst r)) /\ base (fst (fst r)) = (base fsa + 100 * length ws)%nat /\ snd r = (k + length ws)%nat /\ Extends fsa (fst (fst r)).
+Proof.
+  induction ws as [|ops t IH]; intros fsa us k W F; cbn [fold_left].
+  - cbn [fst snd length]. split; [exact W|]. split; [exact F|]. split; [lia|]. split; [lia | apply Extends_refl].
+  - change (mstep (fsa, us, k) ops) with (let (fsy, u) := filler_session fsa [k] eps ops in (fsy, us ++ u, S k)).
+    destruct (filler_session_spec eps Heps fsa [k] ops W F) as (W1 & F1 & _). cbv zeta in *.
+    pose proof (filler_base fsa [k] ops) as B1. pose proof (filler_session_extends eps Heps fsa [k] ops W F) as E1.
+    destruct (filler_session fsa [k] eps ops) as [fsb u1]. cbn [fst snd] in *.
+    destruct (IH fsb (us ++ u1) (S k) W1 F1) as (W2 & F2 & B2 & K2 & E2). cbv zeta in *.
+    split; [exact W2|]. split; [exact F2|]. split; [rewrite B2, B1; cbn [length]; lia|]. split; [rewrite K2; cbn [length]; lia|].
+    eapply Extends_trans; eassumption.
+Qed.
+
+Theorem multi_block_in_order h1 writers h2 st1 st3 :
+  run_history eps h1 = Ok st1 -> run_history eps (h1 ++ SMulti writers :: h2) = Ok st3 ->
+  forall j ops, nth_error writers j = Some ops ->
+  forall s, exists pre post, map (examples_of (fst st3)) (dfs FUEL (fst st3) [split_code s]) =
+                             pre ++ map (stored (base (fst st1) + 100 * j)) (closed_of s (session_closed eps ops)) ++ post.
+Proof.
+  intros H1 H3 j ops Hj s.
+  destruct (history_inv3 eps Heps h1 st1 H1) as (HI1 & _). pose proof HI1 as (Hwf1 & Hfr1 & _).
+  destruct st1 as [fs1 info1]. cbn [fst snd] in *.
+  (* split the writers around the j-th *)
+  destruct (nth_error_split writers j Hj) as (w1 & w2 & Ew & Hl1). subst writers.
+  set (fsm := {| lists := lists fs1; shards := shards fs1; ver := ver fs1; fresh := (fresh fs1 + length (w1 ++ ops :: w2))%nat; base := base fs1 |}).
+  assert (Wm : WFunder fsm []) by (intros d s0 h0 Hp E; apply (WFdoc_shards fs1 fsm); [reflexivity | exact (Hwf1 d s0 h0 Hp E)]).
+  assert (Fm : FreshOK fsm) by (intros d n v E; cbn [fresh fsm]; pose proof (Hfr1 d n v E); lia).
+  (* the session as a whole *)
+  assert (Hsplit : run_history eps ((h1 ++ [SMulti (w1 ++ ops :: w2)]) ++ h2) = Ok st3) by (rewrite <- app_assoc; exact H3).
+  unfold run_history in Hsplit. rewrite fold_left_app in Hsplit.
+  destruct (fold_left (fun acc s0 => match acc with Err e => Err e | Ok st0 => run_session eps st0 s0 end) (h1 ++ [SMulti (w1 ++ ops :: w2)]) (Ok (fs0, []))) as [st2|e] eqn:E2.
+  2:{ exfalso. clear -Hsplit. induction h2 as [|x t IHt]; cbn [fold_left] in Hsplit; [discriminate | auto]. }
+  assert (Hrun2 : run_history eps (h1 ++ [SMulti (w1 ++ ops :: w2)]) = Ok st2) by exact E2.
+  assert (H3' : run_history eps ((h1 ++ [SMulti (w1 ++ ops :: w2)]) ++ h2) = Ok st3) by (rewrite <- app_assoc; exact H3).
+  destruct (history_appends_only eps Heps _ _ _ _ Hrun2 H3') as [X1 X2].
+  (* inside the call *)
+  rewrite fold_left_app in E2. unfold run_history in H1. rewrite H1 in E2. cbn [fold_left] in E2. unfold run_session in E2. fold mstep in E2. fold fsm in E2.
+  rewrite fold_left_app in E2. cbn [fold_left] in E2.
+  destruct (multi_prefix w1 fsm [] (fresh fs1) Wm Fm) as (Wj & Fj & Bj & Kj & _). cbv zeta in *.
+  destruct (fold_left mstep w1 (fsm, [], fresh fs1)) as [[fsj usj] kj] eqn:Ej. cbn [fst snd] in *.
+  change (mstep (fsj, usj, kj) ops) with (let (fsy, u) := filler_session fsj [kj] eps ops in (fsy, usj ++ u, S kj)) in E2.
+  destruct (filler_files eps Heps fsj [kj] ops Wj Fj s) as (ents & Ef & Ee & En). cbv zeta in *.
+  destruct (filler_session_spec eps Heps fsj [kj] ops Wj Fj) as (Wa & Fa & _). cbv zeta in *.
+  destruct (filler_session fsj [kj] eps ops) as [fsa ua] eqn:Efs. cbn [fst snd] in *.
+  destruct (multi_prefix w2 fsa (usj ++ ua) (S kj) Wa Fa) as (Wb & Fb & _ & _ & [Eb1 Eb2]). cbv zeta in *.
+  (* all updates have directories of length two *)
+  assert (Hphase := multi_phase eps Heps (w1 ++ ops :: w2) fsm (fresh fs1) Wm Fm). cbv zeta in Hphase. fold mstep in Hphase.
+  rewrite fold_left_app in Hphase. cbn [fold_left] in Hphase. rewrite Ej in Hphase.
+  change (mstep (fsj, usj, kj) ops) with (let (fsy, u) := filler_session fsj [kj] eps ops in (fsy, usj ++ u, S kj)) in Hphase. rewrite Efs in Hphase.
+  destruct (fold_left mstep w2 (fsa, usj ++ ua, S kj)) as [[fsb ups] kb] eqn:Eb. cbn [fst snd] in *.
+  destruct Hphase as (Wb' & _ & _ & _ & Lu & _).
+  assert (Hst2 : (forall d, sl_files (load_or_create (fst st2) d) = sl_files (load_or_create fsb d)) /\ shards (fst st2) = shards fsb).
+  { destruct ups as [|u0 ups']; [injection E2 as <-; split; reflexivity|].
+    destruct st2 as [fs2 info2]. unfold write_config, group_split in E2. fold WCstep in E2. cbn [fst].
+    apply (wc_fold_same_files (group_by 0 (u0 :: ups')) fsb info1 fs2 info2); [apply group_by_ok; apply Forall_forall; exact Lu | exact Wb | exact E2]. }
+  destruct Hst2 as [Hf2 Hs2].
+  set (d := split_code s :: [kj]) in *.
+  destruct (Eb1 d) as [extb Eextb]. destruct (X1 d) as [ext Eext].
+  destruct (history_inv3 eps Heps _ st3 H3') as ((Hwf3 & Hfr3 & Hex3) & Hlk3 & _ & Hinfo3).
+  destruct st3 as [fs3 info3]. cbn [fst snd] in *.
+  assert (Hents : map (examples_of fs3) ents = map (stored (base fs1 + 100 * j)) (closed_of s (session_closed eps ops))).
+  { rewrite <- Hl1. replace (base fs1 + 100 * length w1)%nat with (base fsj) by (rewrite Bj; reflexivity).
+    rewrite <- Ee. apply map_ext_in. intros e He. rewrite Forall_forall in En. specialize (En e He).
+    apply examples_of_grow; [|exact En]. intros d0 n v E. apply X2. rewrite Hs2. apply Eb2. exact E. }
+  destruct ents as [|e0 ents'].
+  - cbn [map] in Hents. rewrite <- Hents. exists (map (examples_of fs3) (dfs FUEL fs3 [split_code s])), []. rewrite app_nil_r. reflexivity.
+  - assert (Hfiles3 : sl_files (load_or_create fs3 d) = ((sl_files (load_or_create fsj d) ++ (e0 :: ents')) ++ extb) ++ ext) by (rewrite Eext, Hf2, Eextb, Ef; reflexivity).
+    unfold load_or_create at 1 in Hfiles3. destruct (lookup d (lists fs3)) as [[sd hh]|] eqn:El; [|cbn in Hfiles3; destruct (sl_files (load_or_create fsj d)); discriminate].
+    assert (Hne : lookup d (lists fs3) <> None) by (rewrite El; discriminate).
+    destruct (dget info3 (split_code s)) as [li|] eqn:Eg; [|exfalso; apply (Hinfo3 _ _ Hne); exact Eg].
+    destruct (Hex3 _ li Eg (fun f => f)) as [Hdir Hexa].
+    destruct (dfs_block FUEL fs3 li d sd hh Hexa) as (pre & post & Ebk); [rewrite Hdir; apply (Hlk3 _ _ sd hh El); intros [] | exact El|].
+    rewrite Hdir in Ebk. rewrite Ebk, Hfiles3, !map_app, Hents.
+    exists (map (examples_of fs3) pre ++ map (examples_of fs3) (sl_files (load_or_create fsj d))), (map (examples_of fs3) extb ++ map (examples_of fs3) ext ++ map (examples_of fs3) post).
+    rewrite <- !app_assoc. reflexivity.
+Qed.
+End Ord3.
